@@ -20259,6 +20259,11 @@ impl<
 			($counterparty_node_id: expr, $chan_in_flight_upds: expr, $monitor: expr,
 			 $peer_state: expr, $logger: expr, $channel_info_log: expr
 			) => { {
+				// Updates generated while we were last starting up are not always tracked as
+				// in-flight in the order of their `update_id`s (some are only tracked once their
+				// background event is processed), but must be replayed in that order.
+				$chan_in_flight_upds.sort_by_key(|update| update.update_id);
+
 				// When all in-flight updates have completed after we were last serialized, we
 				// need to remove them. However, we can't guarantee that the next serialization
 				// will have happened after processing the
